@@ -770,6 +770,9 @@ INT_PARAMS = {"rank", "n_samples", "mode", "modes", "n_iter_max", "n_iter_max_in
 FLOAT_PARAMS = {"threshold", "regularizer", "reg", "parameter", "tol", "lr", "alpha", "scale", "jump", "tol_outer", "tol_inner", "epsilon", "reg_W", "reg_E", "reg_J", "learning_rate",
                 "mu_init", "mu_max", "sparsity_coef", "ridge_coef", "sparsity_coefficient", "ridge_coefficient", "l2_reg", "l1_reg", "acc_pow", "delta", "eps", "bound", "percent",
                 "compression_threshold"}
+# parameters that receive a real-valued quantity of the data's precision (a norm): modelled as RealOf(input), so that a function is certified exact
+# without assuming that they are complex, and left out of the "every array argument is exact" condition at its call sites
+REAL_PARAMS = {"norm_tensor", "tensor_norm"}
 ARRAY_OPT = {"x", "V", "init", "weights", "U", "x_init", "dual", "projected_tensor", "norm_matrices", "mttkrp", "factors_last", "weights_last", "sparse_component", "y", "Y"}
 MAINLOOP_TARGETS = {"iteration", "_", "it", "epoch", "n_iter_", "i_iter", "component"}
 UNARY_FLOAT = {"sqrt", "mean", "exp", "log", "log2", "log10", "sin", "cos", "tan", "tanh", "sinh", "cosh", "arcsin", "arccos", "arctan", "arcsinh", "arccosh", "arctanh", "asin",
@@ -797,8 +800,10 @@ EXACT_CALLS = {"dot", "matmul", "einsum", "kron", "solve", "qr", "clip", "multip
                "atleast_2d", "broadcast_to"}
 CONTAINER_CALLS = {"list", "tuple", "reversed", "sorted", "iter", "next", "zip", "enumerate", "dict", "CPTensor", "TuckerTensor", "TTTensor", "TRTensor", "TTMatrix",
                    "Parafac2Tensor", "concatenate", "stack", "vstack", "hstack", "pad"}
-PARTIAL_EXACT = {"lstsq": [True, False, False, False], "svd": [True, False, True], "truncated_svd": [True, False, True], "randomized_svd": [True, False, True],
+PARTIAL_EXACT = {"lstsq": [True, False], "svd": [True, False, True], "truncated_svd": [True, False, True], "randomized_svd": [True, False, True],
                  "symeig_svd": [True, False, True], "eigh": [False, True], "svd_fun": [True, False, True]}
+EXACT_CALLEES_DEFAULT = {}   # the same under the assumption that the callee (and its callees) run with their boolean / string options at the DEFAULT values
+CALLEE_FLAGS = {}            # bare name -> {"flags": {option: default}, "first": position of the first such option among the parameters}
 EXACT_CALLEES = {}      # bare name of a library function -> True (every array output exact) | [bool per tuple position]; loaded from the baseline
 
 
@@ -887,8 +892,14 @@ class Unsupported(Exception):
 
 
 class Translator:
-    def __init__(self, fn, qual):
+    def __init__(self, fn, qual, defaults_mode=False, flag_override=None):
+        self.flag_override = flag_override or {}
         self.fn, self.qual = fn, qual
+        # defaults_mode: translate the function AS CALLED WITH ITS BOOLEAN / STRING OPTIONS AT THEIR DEFAULT VALUES (non_negative=False, init="svd", ...):
+        # tests on these options are decided, only the alternative taken by default is translated.  Used for a second, weaker exact-dtype
+        # certification ("complex stays complex with default options"); the precision-class check always uses the all-paths translation.
+        self.defaults_mode = defaults_mode
+        self.flags, self.flagvals, self.first_flag = {}, {}, None
         self.defined, self.empty = set(), set()
         self.subst = {}
         self.out = []          # emitted statements (name, expr)
@@ -923,6 +934,7 @@ class Translator:
 
     def wr(self, name, e):
         self.consts.pop(name, None)
+        self.flagvals.pop(name, None)
         for k in [k for k, v in self.structs.items() if name == k or name in v["deps"]]:
             del self.structs[k]      # the container or something it was built from is written again: its components are no longer known
         if self.rename is not None:
@@ -1107,7 +1119,38 @@ class Translator:
             d = self.dotted(node.func)
             if d is None or d[0] not in MODULES or d[0] in self.defined:
                 return None        # a method call on an object: not resolved to a library function by its bare name
+        if self.defaults_mode and A in EXACT_CALLEES_DEFAULT and node is not None and self.default_call(A, node):
+            return EXACT_CALLEES_DEFAULT[A]
         return EXACT_CALLEES.get(A)
+
+    def default_call(self, A, node):
+        """the call leaves every boolean / string option of the callee at its default (not passed, passed as the same literal, or passed as an
+        option of the caller that is itself at the same default)"""
+        info = CALLEE_FLAGS.get(A)
+        if info is None:
+            return False
+        if info["first"] is not None and len(node.args) > info["first"]:
+            return False
+        for kw in node.keywords:
+            if kw.arg is None:
+                d = self.dotted(kw.value.func) if isinstance(kw.value, ast.Call) else None
+                if d and d[-1] == "context":
+                    continue          # **tl.context(x) passes dtype / device only
+                return False
+            if kw.arg in info["flags"]:
+                v = kw.value
+                if isinstance(v, ast.Constant):
+                    val = v.value
+                elif isinstance(v, ast.Name) and v.id in self.flagvals:
+                    val = self.flagvals[v.id]
+                else:
+                    return False
+                dflt = info["flags"][kw.arg]
+                same = type(val) is type(dflt) and val == dflt
+                # None and False are interchangeable for an option when the callee translates to the same program under both (falsy_eq)
+                if not same and not (val in (None, False) and dflt in (None, False) and kw.arg in info.get("falsy_eq", [])):
+                    return False
+        return True
 
     def call_name(self, n):
         d = self.dotted(n.func)
@@ -1224,10 +1267,30 @@ class Translator:
             return opjoin(allv)      # NumPy arithmetic: the promotion of everything that goes in, exact as soon as one operand is
         # container constructors and library functions (modular summary: the callee is certified separately under the assumption that ALL
         # its array arguments have the data's dtype): everything that goes in is promoted; exact only if every array argument is
-        arrs = [x for x in allv if not idxlike(x, self.intvars, self.weakvars) and not weaklike(x, self.weakvars)]
-        rest = [x for x in allv if idxlike(x, self.intvars, self.weakvars) or weaklike(x, self.weakvars)]
+        realargs = self.real_param_args(A, n) if base_expr is None else set()
+        arrs = [x for i, x in enumerate(allv) if not idxlike(x, self.intvars, self.weakvars) and not weaklike(x, self.weakvars) and i not in realargs]
+        rest = [x for i, x in enumerate(allv) if idxlike(x, self.intvars, self.weakvars) or weaklike(x, self.weakvars) or i in realargs]
         r = opjoin([joinlist(arrs)] + rest)
         return r if (raw or A in CONTAINER_CALLS or self.spec_of(A, n) is True) else self.inexact(r)
+
+    def real_param_args(self, A, n):
+        """positions in `[x for x in args + keyword values if x is not None]` of the arguments bound to a REAL_PARAMS parameter of the library function A"""
+        info = CALLEE_FLAGS.get(A)
+        if not info or not info.get("params"):
+            return set()
+        names = []
+        for i, a in enumerate(n.args):
+            names.append(info["params"][i] if i < len(info["params"]) and not isinstance(a, ast.Starred) else None)
+        names += [kw.arg for kw in n.keywords if kw.arg is not None and kw.arg != "dtype"]
+        vals = [self.ex(a) for a in n.args] + [self.ex(kw.value) for kw in n.keywords if kw.arg is not None and kw.arg != "dtype"]
+        out, j = set(), 0
+        for nm, v in zip(names, vals):
+            if v is None:
+                continue
+            if nm in REAL_PARAMS:
+                out.add(j)
+            j += 1
+        return out
 
     STRUCT_CLASSES = ("CPTensor", "TuckerTensor", "TTTensor", "TRTensor", "TTMatrix", "Parafac2Tensor")
 
@@ -1303,6 +1366,16 @@ class Translator:
             if isinstance(t.op, ast.And):
                 return False if any(r is False for r in rs) else (True if all(r is True for r in rs) else None)
             return True if any(r is True for r in rs) else (False if all(r is False for r in rs) else None)
+        if isinstance(t, ast.Name) and t.id in self.flagvals and (isinstance(self.flagvals[t.id], bool) or self.flagvals[t.id] is None):
+            return bool(self.flagvals[t.id])                               # `if non_negative:` with the option at its default
+        if isinstance(t, ast.Compare) and len(t.ops) == 1 and isinstance(t.left, ast.Name) and t.left.id in self.flagvals \
+                and isinstance(t.comparators[0], ast.Constant) and (isinstance(t.comparators[0].value, (bool, str)) or t.comparators[0].value is None):
+            a_, b_ = self.flagvals[t.left.id], t.comparators[0].value     # `init == "random"`, `flag is not False`, `flag is None` with the option at its default
+            same = type(a_) is type(b_) and a_ == b_
+            if isinstance(t.ops[0], (ast.Eq, ast.Is)):
+                return same
+            if isinstance(t.ops[0], (ast.NotEq, ast.IsNot)):
+                return not same
         if isinstance(t, ast.Compare) and len(t.ops) == 1 and isinstance(t.left, ast.Name) and t.left.id in self.consts \
                 and isinstance(t.comparators[0], ast.Constant) and isinstance(t.comparators[0].value, int) and not isinstance(t.comparators[0].value, bool):
             c, op, k = t.comparators[0].value, t.ops[0], self.consts[t.left.id]
@@ -1636,12 +1709,18 @@ class Translator:
         a = self.fn.args
         pos = a.posonlyargs + a.args
         defaults = [None] * (len(pos) - len(a.defaults)) + list(a.defaults)
-        for p, dflt in list(zip(pos, defaults)) + list(zip(a.kwonlyargs, a.kw_defaults)):
+        for idx, (p, dflt) in enumerate(list(zip(pos, defaults)) + list(zip(a.kwonlyargs, a.kw_defaults))):
             nm = p.arg
             if nm in ("self", "cls"):
                 continue
+            if isinstance(dflt, ast.Constant) and (isinstance(dflt.value, (bool, str)) or (dflt.value is None and nm not in ARRAY_OPT and nm != "mask" and (nm not in INT_PARAMS or nm in ("fixed_modes", "nn_modes", "fixed_factors")) and nm not in FLOAT_PARAMS)):
+                self.flags[nm] = dflt.value
+                if self.first_flag is None:
+                    self.first_flag = idx - (1 if pos and pos[0].arg in ("self", "cls") else 0)
             if nm == "mask":
                 e = LMASK
+            elif nm in REAL_PARAMS:
+                e = ("real", LIN)
             elif nm in INT_PARAMS:
                 e = PYI
             elif nm in FLOAT_PARAMS:
@@ -1668,6 +1747,9 @@ class Translator:
                     self.arrayvars.add(nm)
         if a.kwarg is not None and a.kwarg.arg in ("context", "ctx"):
             self.wr(a.kwarg.arg, LIN)
+        if self.defaults_mode:
+            self.flagvals = dict(self.flags)
+            self.flagvals.update({k: v for k, v in self.flag_override.items() if k in self.flags})
 
     def run(self):
         self.listvars = set()
@@ -1736,8 +1818,8 @@ def gallina(e, vid):
     raise KeyError(k)
 
 
-def translate(fn_node, qual):
-    tr = Translator(fn_node, qual)
+def translate(fn_node, qual, defaults_mode=False, flag_override=None):
+    tr = Translator(fn_node, qual, defaults_mode, flag_override)
     init, loop, rets = tr.run()
     ids = {}
 
@@ -1749,7 +1831,7 @@ def translate(fn_node, qual):
     gl = "[" + "; ".join(f"({vid(n)}, {gallina(e, vid)})" for n, e in loop) + "]"
     go = "[" + "; ".join(f'("*", (Var {vid(r)}))' for r in rets) + "]"
     return dict(qual=qual, prog=f"(mkprog {gi} {gl} {go})", n_init=len(init), n_loop=len(loop), n_out=len(rets), n_vars=len(ids), notes=tr.notes,
-                retinfo=[tr.retinfo.get(r) for r in rets],
+                retinfo=[tr.retinfo.get(r) for r in rets], flags=dict(tr.flags), first_flag=tr.first_flag, params=[a.arg for a in fn_node.args.posonlyargs + fn_node.args.args],
                 leaves=sorted({x for _, e in init + loop for x in leaves_of(e)}))
 
 
@@ -1798,7 +1880,7 @@ def extract_functions(repo):
                             yield mod + "." + node.name + "." + m.name, m
 
 
-def extract_all(repo):
+def extract_all(repo, defaults_mode=False):
     """{qual: translation dict | {'error': ...}} for every function that returns at least one array-valued expression"""
     import warnings
     out = {}
@@ -1806,7 +1888,7 @@ def extract_all(repo):
         warnings.simplefilter("ignore")
         for q, node in extract_functions(repo):
             try:
-                r = translate(node, q)
+                r = translate(node, q, defaults_mode)
             except Unsupported as e:
                 out[q] = {"error": "unsupported construct: " + str(e)}
                 continue
@@ -1927,9 +2009,56 @@ def callee_specs(ex, exact):
     return merged
 
 
-def set_exact_callees(specs):
+def set_exact_callees(specs, default_specs=None, flags=None):
     EXACT_CALLEES.clear()
     EXACT_CALLEES.update(specs)
+    EXACT_CALLEES_DEFAULT.clear()
+    EXACT_CALLEES_DEFAULT.update(default_specs or {})
+    CALLEE_FLAGS.clear()
+    CALLEE_FLAGS.update(flags or {})
+
+
+def callee_flags(ex, repo):
+    """bare function name -> its boolean / string / None-valued options with their defaults (all functions of that name agreeing; methods excluded);
+    falsy_eq: the options with default None / False for which the function translates to the same program under the other of the two values"""
+    nodes = dict(extract_functions(repo))
+    per = {}
+    for q, r in ex.items():
+        name = q.rsplit(".", 1)[1]
+        if "error" in r or name.startswith("__") or q.rsplit(".", 2)[1][:1].isupper():
+            continue
+        feq = []
+        for f, dv in r["flags"].items():
+            if dv is None or dv is False:
+                try:
+                    a = translate(nodes[q], q, True)["prog"]
+                    b = translate(nodes[q], q, True, {f: (False if dv is None else None)})["prog"]
+                    if a == b:
+                        feq.append(f)
+                except Exception:  # noqa
+                    pass
+        per.setdefault(name, []).append({"flags": r["flags"], "first": r["first_flag"], "falsy_eq": sorted(feq), "params": r["params"]})
+    return {n: v[0] for n, v in per.items() if all(x == v[0] for x in v)}
+
+
+def measure_exact(ex, levels, tag):
+    """{qual: {"n_out", "outs"}}: which outputs of the translations `ex` pass the exact-dtype check at the function's level"""
+    xcases, xmeta = [], []
+    for q in sorted(ex):
+        r = ex[q]
+        if "error" in r or levels.get(q, 0) < 1:
+            continue
+        for k in range(r["n_out"]):
+            xcases.append(f"(CExtX {len(xcases)}%nat {levels[q]}%nat {r['prog']} [{k}%nat])")
+            xmeta.append((q, k))
+    xfailing, x_eval, xbroken = C.run_case_shards("C18", HEADER, "case", xcases, shard=60, tag=tag)
+    assert not xbroken and x_eval == len(xcases), xbroken
+    exact = {}
+    for i, (q, k) in enumerate(xmeta):
+        e = exact.setdefault(q, {"n_out": ex[q]["n_out"], "outs": []})
+        if i not in xfailing:
+            e["outs"].append(k)
+    return exact
 
 
 def write_extract_baseline(repo=None):
@@ -1937,6 +2066,8 @@ def write_extract_baseline(repo=None):
     import json, os
     repo = repo or C.REPO
     set_exact_callees({})
+    flags = callee_flags(extract_all(repo), repo)
+    set_exact_callees({}, {}, flags)
     cases, meta, errors, ex = extract_cases(repo, lambda q: [2, 1])
     failing, n_eval, broken = C.run_case_shards("C18", HEADER, "case", cases, shard=40, tag="extbase")
     assert not broken and n_eval == len(cases), broken
@@ -1952,34 +2083,34 @@ def write_extract_baseline(repo=None):
     while True:
         rounds += 1
         ex = extract_all(repo)
-        xcases, xmeta = [], []
-        for q in sorted(ex):
-            r = ex[q]
-            if "error" in r or levels.get(q, 0) < 1:
-                continue
-            for k in range(r["n_out"]):
-                xcases.append(f"(CExtX {len(xcases)}%nat {levels[q]}%nat {r['prog']} [{k}%nat])")
-                xmeta.append((q, k))
-        xfailing, x_eval, xbroken = C.run_case_shards("C18", HEADER, "case", xcases, shard=60, tag="extbasex")
-        assert not xbroken and x_eval == len(xcases), xbroken
-        exact = {}
-        for i, (q, k) in enumerate(xmeta):
-            e = exact.setdefault(q, {"n_out": ex[q]["n_out"], "outs": []})
-            if i not in xfailing:
-                e["outs"].append(k)
+        exact = measure_exact(ex, levels, "extbasex")
         specs = callee_specs(ex, exact)
         print(f"exactness round {rounds}: {sum(len(e['outs']) for e in exact.values())} exact outputs, {len(specs)} exact callees")
         if specs == dict(EXACT_CALLEES) or rounds >= 8:
             break
-        set_exact_callees(specs)
+        set_exact_callees(specs, {}, flags)
+    # the same for the translations with every boolean / string option at its default (non_negative=False, init="svd", ...): a second, weaker
+    # certification for the outputs that the all-paths check cannot certify because some option makes them real-valued by design
+    set_exact_callees(dict(EXACT_CALLEES), {}, flags)
+    rounds = 0
+    while True:
+        rounds += 1
+        exd = extract_all(repo, defaults_mode=True)
+        exact_d = measure_exact(exd, levels, "extbasexd")
+        specs = callee_specs(exd, exact_d)
+        print(f"default-options exactness round {rounds}: {sum(len(e['outs']) for e in exact_d.values())} of {sum(e['n_out'] for e in exact_d.values())} exact outputs, {len(specs)} exact callees")
+        if specs == dict(EXACT_CALLEES_DEFAULT) or rounds >= 8:
+            break
+        set_exact_callees(dict(EXACT_CALLEES), specs, flags)
     head, dirty = C.repo_head()
     json.dump({"repo_head": head, "levels": levels, "exact": exact, "exact_callees": dict(EXACT_CALLEES), "untranslatable": errors,
+               "exact_default": exact_d, "exact_callees_default": dict(EXACT_CALLEES_DEFAULT), "callee_flags": flags,
                "comment": "level 2: extracted dtype program certified for every mask dtype; 1: for a mask of the data's dtype; 0: not certified "
                           "(documented float64 output: must be exactly DOCUMENTED_F64); exact[q].outs: positions (in the order of the return "
                           "expressions) of the outputs certified to have EXACTLY the data's dtype at that level - the others are real-valued "
                           "(norms, errors, abs) or joined with such values"},
               open(os.path.join(C.VERIF, "corpus", "C18", EXTRACT_BASELINE), "w"), indent=1, sort_keys=True)
-    return levels, errors, exact
+    return levels, errors, exact, exact_d
 
 # ---- self-test of the translator: random straight-line functions, executed for real and translated
 TR_TEMPLATES = [
@@ -2314,7 +2445,7 @@ def dtypes_for(t, tier):
 
 def run(chk):
     rng = random.Random(chk.seed)
-    set_exact_callees(load_extract_baseline("exact_callees"))
+    set_exact_callees(load_extract_baseline("exact_callees"), load_extract_baseline("exact_callees_default"), load_extract_baseline("callee_flags"))
     chk.build_proofs()
     C.reset_backends()
     cases, meta = [], []
